@@ -1,5 +1,5 @@
 """C10 -- wire: delay law, order, loss only by rate; Cable = two independent wires."""
-from symx import (sym_num, sym_int, sym_real, check, obs, cover, eq, ge, le, lt, gt, fail, Ite, smax,
+from symx import (choice, sym_num, sym_int, sym_real, check, obs, cover, eq, ge, le, lt, gt, fail, Ite, smax,
                   And, Or, Not, Implies)
 from props.netcommon import Rec, mk_packet
 
@@ -174,6 +174,40 @@ def h_reenter(cfg):
     cover('nontrivial')
 
 
+def h_bulk(cfg):
+    """several thousand packets inside one wire at the same time (a long fat pipe): everything concrete except the common
+    delay, which the solver picks from a small set - a plain long run, there is nothing to fork on"""
+    from onl.sim import Environment
+    from onl.packet import Packet
+    from onl.netdev import Wire
+    env = Environment()
+    n = cfg['n']
+    d = [n + 10, 2 * n][choice('delay', 2)]
+    wire = Wire(env, lambda: d)
+    rec = Rec(env)
+    wire.out = rec
+    ent = []
+
+    def source():
+        for k in range(n):
+            yield env.timeout(1)
+            p = mk_packet(Packet, env.now, 1, k)
+            ent.append((p, env.now))
+            wire.put(p)
+
+    env.process(source())
+    try:
+        env.run()
+    except Exception as ex:  # noqa
+        fail('no-raise', '%s: %s' % (type(ex).__name__, ex))
+        return
+    ok = len(rec.log) == n and all(a is b and t == at + d for (a, at), (b, t) in zip(ent, rec.log))
+    bad = next((k for k, ((a, at), (b, t)) in enumerate(zip(ent, rec.log)) if not (a is b and t == at + d)), None)
+    check('c10.delivery-time', ok, 'delivered %d of %d; first deviation at packet %s' % (len(rec.log), n, bad))
+    cover('thousands-in-flight')
+    cover('nontrivial')
+
+
 def h_cable(cfg):
     from onl.sim import Environment
     from onl.packet import Packet
@@ -222,7 +256,7 @@ def h_cable(cfg):
     cover('nontrivial')
 
 
-HARNESSES = {'wire': h_wire, 'cable': h_cable, 'reenter': h_reenter}
+HARNESSES = {'wire': h_wire, 'cable': h_cable, 'reenter': h_reenter, 'bulk': h_bulk}
 
 
 def jobs(tier, seed):
@@ -235,6 +269,7 @@ def jobs(tier, seed):
     js.append({'harness': 'wire', 'cfg': {'n': n + 1, 'sorts': 'int', 'loss': 'none'}, 'weight': 20})
     for loss in ('none', 'sym'):
         js.append({'harness': 'wire', 'cfg': {'n': 3 if loss == 'none' else 2, 'sorts': 'int', 'loss': loss, 'twin': True}, 'weight': 30})
+    js.append({'harness': 'bulk', 'cfg': {'n': 4500 if tier == 'quick' else 20000}, 'weight': 60})
     for objs in ([0, 1, 1], [0, 0, 1], [0, 1, 0]):
         js.append({'harness': 'reenter', 'cfg': {'objects': objs, 'sorts': 'int'}, 'weight': 20})
     # longer workloads: bursts entering the wire at one instant (reordering / loss-draw binding over several packets)
@@ -258,7 +293,7 @@ META = {
             'non-trivial = at least two deliveries or at least one loss',
     'required_labels': ['c10.delivery-time', 'c10.loss-rule', 'c10.order-preserved', 'c10.ab.delivery-time',
                         'c10.ba.delivery-time', 'c10.cable-A-to-B-only'],
-    'required_covers': ['nontrivial', 'lost', 'two-instances', 'same-object-twice'],
+    'required_covers': ['nontrivial', 'lost', 'two-instances', 'same-object-twice', 'thousands-in-flight'],
     'bounds': {'quick': 'n=3 packets (4 without loss); cable 2+2 packets; gaps, delays >= 0 unbounded Int/Real; loss rate symbolic in [0,1]',
                'thorough': 'n=4-5 (5-6 without loss); cable 2+2 and 3+3, up to a path budget'},
     'assumptions': ['draws are bound to packets positionally per wire process: i-th loss draw = i-th packet entering, '
